@@ -1294,6 +1294,8 @@ class CallMixin(object):
             self.event("map_mutation", node, module, st, what="setdefault", map=ref.id)
             k = args[0]
             d = args[1] if len(args) > 1 else Const(None)
+            if isinstance(k, Fin):
+                k = st.folder().restrict(k)
             if isinstance(k, Const):
                 if k.v in o.entries:
                     p, v = o.entries[k.v]
@@ -1302,6 +1304,22 @@ class CallMixin(object):
                     nv = d
                 o.set(k.v, TRUE, nv)
                 return nv
+            if isinstance(k, Fin):
+                # a key that is a table: for each key it can be, the entry keeps its value where it is
+                # present and takes the default otherwise; the call returns the entry's value
+                fo_ = st.folder()
+                result = None
+                for kv in sorted(set(k.table.values()), key=T.ckey):
+                    c = fo_.fold(lambda x, kv=kv: x == kv, [k])
+                    if kv in o.entries:
+                        p0, v0 = o.entries[kv]
+                        kept = self.mk_ite(st, p0, v0, d)
+                        o.set(kv, mk_or([p0, c]), self.mk_ite(st, c, kept, v0))
+                    else:
+                        kept = d
+                        o.set(kv, c, d)
+                    result = kept if result is None else self.mk_ite(st, c, kept, result)
+                return result
         if name in ("update", "clear", "popitem"):
             self.event("map_mutation", node, module, st, what=name, map=ref.id)
             if name == "update" and args and isinstance(args[0], Ref) and st.heap[args[0].id].kind == "map":
